@@ -286,6 +286,7 @@ def matrix(unit, work, tier, seed, repo, goenv):
 CHECK = {
     "level": "exploration",
     "assumptions": [
+        "the process environment is varied only along the CPU count and the local time zone; the wall clock is read once to choose the time-zone offsets and is not an oracle",
         "binaries built from the current tree with the repository's own tool chain (go 1.23.5)",
         "the grpc-web client run of the Makefile needs Node (npm run build) and cannot be built offline; the gRPC-Web server peer and both gRPC peers are covered",
         "a failure is reported only if it persists in 3 isolated re-runs (--run <name>), so load-induced timeouts on timing cases do not count",
@@ -294,7 +295,7 @@ CHECK = {
     "manifest": {
         "engine": "MATRIX",
         "technique": "exhaustive enumeration of the finite configuration space with the real binaries (all permutations in the thorough tier, a reduced HTTP/TLS/compression matrix in the quick tier)",
-        "text": "Five runner invocations exactly as the Makefile does (reference server and client with the reference config, gRPC server and client with grpc-impls-config, gRPC server with grpc-web-server-impl-config), each with --trace and its shipped known-failing file: exit 0, zero failed, every computed permutation ran (none 'could not be run'), reference known-failing lists empty. Thorough: every permutation (12,998 + 16,580 + gRPC runs). Quick: all three HTTP versions, TLS without client certs, all protocols and codecs, identity only, plus every suite under all six compressions over cleartext HTTP/2 with the proto codec.",
+        "text": "Five runner invocations exactly as the Makefile does (reference server and client with the reference config, gRPC server and client with grpc-impls-config, gRPC server with grpc-web-server-impl-config), each with --trace and its shipped known-failing file: exit 0, zero failed, every computed permutation ran (none 'could not be run'), reference known-failing lists empty. Thorough: every permutation (12,998 + 16,580 + gRPC runs). Quick: all three HTTP versions, TLS without client certs, all protocols and codecs, identity only, plus every suite under all six compressions over cleartext HTTP/2 with the proto codec. Added after the seeding rounds: a TLS client-certificate pass with one server at a time; three consecutive full runs to confirm order-dependent failures; environment passes: GOMAXPROCS=1 and fixed-offset time zones (TZif files written at run time) that put the local calendar date one day ahead of / behind the UTC date, over Basic/** and TLS Client Certs/** and the gRPC runs.",
         "note": "Timing-sensitive cases are re-run in isolation before being reported; Node-based grpc-web client excluded.",
         "design_ref": "DESIGN.md §2.4, §4 C01",
     },
